@@ -93,7 +93,7 @@ CLAIMED = {
    technique="Coq proof (commutation by induction over operations) over a store model + vm_compute correspondence", ref="DESIGN.md section 4 C14"),
  'C15': dict(
    text="Coq theorems over model/Variables.v: the file with placeholder values substituted by hand has the same sections, the same keys in the same order, and every value equal to the interpolated value of the templated file (c15_equiv); changing [Variables] does not change keys or templates of any other section (c15_unused_inert); the leak of variable names into other sections' iteration (behaviour before the repair) is refuted. "
-        "Tie: the parser's options/has_option/get asserted on the AST; keys iterated and interpolated values of every section compared with the model; templated vs hand-substituted file tabulations compared. Known finding C15-shadow (own-section option shadows a variable of the same name).",
+        "Tie: the parser's options/has_option/get asserted on the AST; keys iterated and interpolated values of every section compared with the model; templated vs hand-substituted file tabulations compared. ${NAME} resolves to [Variables] first at every nesting level (c15_variables_first; the repaired interpolation class is asserted on the AST).",
    note="Trusted: Coq kernel; the stdlib's ExtendedInterpolation is an oracle whose assumed behaviour is `interp` (compared on every run); partial: the interpolation engine itself is not verified. No axioms.",
    technique="Coq proof over a store/interpolation model + vm_compute correspondence", ref="DESIGN.md section 4 C15"),
  'C16': dict(
